@@ -18,7 +18,7 @@ if/else, for/else, sequencing.
   `num_arg` / `string_filter` although they only call `isinstance`.  `isinstance(u, Undefined)` and
   `isinstance(u, Mapping)` read `u.__class__` too: `Undefined` is an ABC (`Mapping`), and `ABCMeta.__instancecheck__`
   starts with `instance.__class__` — so `is_undefined(u)` itself raises for `StrictUndefined`.
-* filters are a parameter (`FilterSem`) of the interpreter; `builtinFilters` gives eight concrete ones written with
+* filters are a parameter (`FilterSem`) of the interpreter; `builtinFilters` gives nine concrete ones written with
   the same conversions the decorators perform.
 
 Core Lean only (the driver links this file).
@@ -521,6 +521,32 @@ def numArg : Val → Except Err Int
     | .error e => .error e
     | .ok _ => .ok 0
 
+/-- `is_undefined(v)` = `isinstance(v, Undefined)`.  `Undefined` is an ABC (a `Mapping`), so the test goes through
+    `ABCMeta.__instancecheck__`, which reads `v.__class__`: for the strict kinds the predicate itself raises.  This is
+    what makes a missing variable fail as an *optional* filter argument (`round`, `slice`, `sum`, `where` …) and as a
+    `cycle` group name. -/
+def isUndef : Val → Except Err Bool
+  | .data _ => .ok false
+  | .undef k => match poke k .cls with
+    | .error e => .error e
+    | .ok _ => .ok true
+
+/-- `int(s)` for an optionally signed string of ASCII digits -/
+def intOfStr? (s : String) : Option Int :=
+  match s.toList with
+  | '-' :: r => if isDigitsL r then some (-((natOfDigits r : Nat) : Int)) else none
+  | cs => if isDigitsL cs then some ((natOfDigits cs : Nat) : Int) else none
+
+/-- `round(num, ndigits)` for an integer `num` and a defined `ndigits`: `num_arg(ndigits)` failing → `round(num)`;
+    negative → 0; otherwise the integer itself -/
+def roundD (x : Int) : Val → Int
+  | .data (.int n) => if n < 0 then 0 else x
+  | .data (.bool _) => x
+  | .data (.str s) => match intOfStr? s with
+    | some n => if n < 0 then 0 else x
+    | none => x
+  | _ => x
+
 def upper (s : String) : String := s.map Char.toUpper
 
 /-- `s.split(c)` for a one-character separator -/
@@ -635,6 +661,17 @@ def fSplit (v a : Val) : Except Err Val :=
         | .ok _ => .ok (.data (charsOf s)))
     | .data d => .ok (.data (splitD s d))
 
+/-- `round` (a `math_filter`) on integer-valued input: `if ndigits is None or is_undefined(ndigits): return round(num)` -/
+def fRound (v a : Val) : Except Err Val :=
+  match numArg v with
+  | .error e => .error e
+  | .ok x => match a with
+    | .data .nil => .ok (.data (.int x))
+    | a => match isUndef a with
+      | .error e => .error e
+      | .ok true => .ok (.data (.int x))
+      | .ok false => .ok (.data (.int (roundD x a)))
+
 /-- the filter table of the driver; a wrong number of arguments is a `TypeError` (→ `LiquidTypeError`) -/
 def builtinFilters : FilterSem := fun name v args =>
   if name = "upcase" then (match args with | [] => fUpcase v | _ => .error .other)
@@ -645,8 +682,9 @@ def builtinFilters : FilterSem := fun name v args =>
   else if name = "plus" then (match args with | [a] => fPlus v a | _ => .error .other)
   else if name = "default" then (match args with | [a] => fDefault v a | _ => .error .other)
   else if name = "split" then (match args with | [a] => fSplit v a | _ => .error .other)
+  else if name = "round" then (match args with | [a] => fRound v a | _ => .error .other)
   else .error .other
 
-def modelledFilters : List String := ["upcase", "append", "size", "first", "join", "plus", "default", "split"]
+def modelledFilters : List String := ["upcase", "append", "size", "first", "join", "plus", "default", "split", "round"]
 
 end LiquidVerif.UndefKind
